@@ -7,6 +7,7 @@
   The model is tied to the Go code on every run by checks/c18.py (gohook layout).
 -/
 import FerretVerif.Proofs.Layout
+import FerretVerif.Proofs.WasmAlloc
 
 namespace FerretVerif.C18
 open FerretVerif.Layout
@@ -74,5 +75,43 @@ theorem io_c_hardcoded_offsets_ok :
 -- non-vacuity: a nested composite satisfies the hypotheses, at both pointer sizes
 example : WfTy exTy ∧ IsPow2 8 ∧ IsPow2 4 := ⟨by decide, ⟨3, rfl⟩, ⟨2, rfl⟩⟩
 example : fieldOffsets 8 exFields 0 = [0, 8, 16, 48] ∧ fieldOffsets 4 exFields 0 = [0, 4, 12, 36] := by decide
+
+/-! ### the heap of the wasm runtime (runtime.js `ferret_alloc`), where composites behind references, dynamic arrays and
+    strings live on the wasm target: tied to the shipped runtime.js by checks/c18.py (lane `wasm-alloc`) -/
+
+open FerretVerif.WasmAlloc in
+/-- For EVERY data-segment end, initial memory that contains it and EVERY sequence of allocation sizes: each block handed out
+    lies inside the memory as it is after the run (so writing any of its bytes cannot trap), starts 8-aligned, and two
+    different blocks never overlap: storing into one composite cannot change another. -/
+theorem wasm_heap_blocks_intact (dataEnd pages : Nat) (hfit : align8 dataEnd ≤ pages * page) (sizes : List Nat) :
+    let r := run (bind dataEnd pages) sizes
+    r.2.length = sizes.length ∧
+    (∀ b ∈ r.2, align8 dataEnd ≤ b.1 ∧ b.1 + b.2 ≤ r.1.mem ∧ b.1 % 8 = 0) ∧
+    (r.2.Pairwise fun b c => b.1 + b.2 ≤ c.1) := by
+  obtain ⟨⟨i1, _⟩, _, _, i4, i5⟩ := run_spec (bind dataEnd pages) sizes (bind_inv dataEnd pages hfit)
+  refine ⟨run_length _ _, ?_, i5⟩
+  intro b hb
+  obtain ⟨j1, j2, j3⟩ := i4 b hb
+  exact ⟨j1, by omega, j3⟩
+
+open FerretVerif.WasmAlloc in
+/-- … and at the moment a block is handed out it already lies inside the memory (the memory is grown before the address
+    is returned, and never shrinks afterwards) -/
+theorem wasm_alloc_in_memory (s : St) (n : Nat) (h : Inv s) :
+    (alloc s n).2 + n ≤ (alloc s n).1.mem ∧ Inv (alloc s n).1 ∧ s.mem ≤ (alloc s n).1.mem :=
+  ⟨(alloc_spec s n h).2.1, (alloc_spec s n h).1, (alloc_spec s n h).2.2.1⟩
+
+open FerretVerif.WasmAlloc in
+/-- why growing matters (the allocator as shipped before the repair F68 never grew the memory): with the growth removed,
+    a second page-sized block already ends outside a one-page memory -/
+theorem wasm_alloc_without_growth_witness :
+    let noGrow (s : St) (n : Nat) : St × Nat := (⟨align8 (s.heap + n), s.mem⟩, s.heap)
+    let s1 := (noGrow (bind 1024 1) 40000).1
+    ¬ ((noGrow s1 40000).2 + 40000 ≤ (noGrow s1 40000).1.mem) := by decide +kernel
+
+-- non-vacuity: a bound runtime satisfies the hypothesis, and a run that must grow the memory
+open FerretVerif.WasmAlloc in
+example : align8 1024 ≤ 1 * page ∧ (run (bind 1024 1) [40000, 40000, 3]).2 = [(1024, 40000), (41024, 40000), (81024, 3)]
+    ∧ (run (bind 1024 1) [40000, 40000, 3]).1 = ⟨81032, 131072⟩ := by decide +kernel
 
 end FerretVerif.C18
